@@ -45,11 +45,11 @@ type crashFile struct {
 	fs *crashFS
 }
 
-func (f *crashFile) Write(p []byte) (int, error)              { f.fs.tick(); return f.File.Write(p) }
-func (f *crashFile) WriteAt(p []byte, o int64) (int, error)   { f.fs.tick(); return f.File.WriteAt(p, o) }
-func (f *crashFile) Sync() error                              { f.fs.tick(); return f.File.Sync() }
-func (f *crashFile) SyncData() error                          { f.fs.tick(); return f.File.SyncData() }
-func (f *crashFile) SyncTo(l int64) (bool, error)             { f.fs.tick(); return f.File.SyncTo(l) }
+func (f *crashFile) Write(p []byte) (int, error)            { f.fs.tick(); return f.File.Write(p) }
+func (f *crashFile) WriteAt(p []byte, o int64) (int, error) { f.fs.tick(); return f.File.WriteAt(p, o) }
+func (f *crashFile) Sync() error                            { f.fs.tick(); return f.File.Sync() }
+func (f *crashFile) SyncData() error                        { f.fs.tick(); return f.File.SyncData() }
+func (f *crashFile) SyncTo(l int64) (bool, error)           { f.fs.tick(); return f.File.SyncTo(l) }
 func (c *crashFS) wrap(f vfs.File, err error) (vfs.File, error) {
 	if err != nil || f == nil {
 		return f, err
@@ -101,23 +101,23 @@ func nodeOnFS(fs vfs.FS, g *fsm.GenesisState, n0 *node, osDir string) (*node, er
 }
 
 type CrashLine struct {
-	Kind      string `json:"kind"` // "run" | "image"
-	Run       int    `json:"run"`
-	Op        int    `json:"op"`        // the image was taken before file-system operation number op
-	Pct       int    `json:"pct"`       // percentage of unsynced data that survives
-	Phase     string `json:"phase"`     // "during-commit" | "between-commits"
-	Committed uint64 `json:"committed"` // highest version whose Commit() had returned when the image was taken
-	InFlight  uint64 `json:"inFlight"`  // version being committed when the image was taken (0 = none)
-	Opens     bool   `json:"opens"`
-	Version   uint64 `json:"version"`    // version the image re-opens at
-	WasCommitted bool `json:"wasCommitted"` // that version had been (or was being) committed by the running node
-	RootOK    bool   `json:"rootOK"`     // Root() of the re-opened store = root recorded for that version
-	DigestOK  bool   `json:"digestOK"`   // full state scan = scan recorded for that version
-	FSMHeight bool   `json:"fsmHeightOK"` // the state machine re-opens at version+1
-	ArchiveOK bool   `json:"archiveOK"`  // block, certificate and historical state readable and as recorded for every version <= re-open version
-	NextOK    bool   `json:"nextOK"`     // the next block can be produced and committed on the re-opened node
-	Err       string `json:"err"`
-	TotalOps  int    `json:"totalOps"`
+	Kind         string `json:"kind"` // "run" | "image"
+	Run          int    `json:"run"`
+	Op           int    `json:"op"`        // the image was taken before file-system operation number op
+	Pct          int    `json:"pct"`       // percentage of unsynced data that survives
+	Phase        string `json:"phase"`     // "during-commit" | "between-commits"
+	Committed    uint64 `json:"committed"` // highest version whose Commit() had returned when the image was taken
+	InFlight     uint64 `json:"inFlight"`  // version being committed when the image was taken (0 = none)
+	Opens        bool   `json:"opens"`
+	Version      uint64 `json:"version"`      // version the image re-opens at
+	WasCommitted bool   `json:"wasCommitted"` // that version had been (or was being) committed by the running node
+	RootOK       bool   `json:"rootOK"`       // Root() of the re-opened store = root recorded for that version
+	DigestOK     bool   `json:"digestOK"`     // full state scan = scan recorded for that version
+	FSMHeight    bool   `json:"fsmHeightOK"`  // the state machine re-opens at version+1
+	ArchiveOK    bool   `json:"archiveOK"`    // block, certificate and historical state readable and as recorded for every version <= re-open version
+	NextOK       bool   `json:"nextOK"`       // the next block can be produced and committed on the re-opened node
+	Err          string `json:"err"`
+	TotalOps     int    `json:"totalOps"`
 }
 
 type recorded struct {
